@@ -24,7 +24,8 @@ ASSUMPTIONS = ["reference channel simulation on dense density matrices: depolari
                "measuring operations are generated only where the state is still pure (the two backends define a forced measurement of a mixed state "
                "differently by design: post-selection vs per-branch)", "tolerance 1e-9"]
 REQUIRED_CLASSES = {"noisy": ["entangling", "class_U", "class_M", "two_qubit_mixed_placement", "wrapper_noise_list", "strength_0", "strength_1",
-                              "before", "after", "kind:depol", "kind:pauli", "kind:loss"]}
+                              "before", "after", "kind:depol", "kind:pauli", "kind:loss"],
+                    "map": ["via_map", "wrapper_asymmetric_noise", "two_qubit_mixed_placement", "class_M", "entangling", "emitter+photon"]}
 
 PAULIS = "IXYZ"
 
@@ -244,16 +245,102 @@ def mixture_of(state):
 
 def check(case, sub="noisy"):
     desc, noises = case["circ"], case["noises"]
-    n = desc["ne"] + desc["np"]
     cl, nontrivial, flat = classes(desc, noises)
     icls = input_class(desc, noises, flat)
     circ, objs = build_noisy(desc, noises, return_ops=True)
+    return check_core(case, desc, noises, circ, objs, sub, icls, cl, nontrivial)
+
+
+CLASSNAME = {"I": "Identity", "H": "Hadamard", "P": "Phase", "Pdag": "PhaseDagger", "X": "SigmaX", "Y": "SigmaY", "Z": "SigmaZ",
+             "CNOT": "CNOT", "CZ": "CZ"}
+
+
+def wire_keys(circ):
+    """(first quantum register, position on that wire) for every operation, in sequence() order"""
+    count = {}
+    out = []
+    for op in circ.sequence():
+        d = gc.name_of(op)
+        if d is None:
+            continue
+        regs = gc.qregs(d)
+        out.append((op, (regs[0], count.get(regs[0], 0))))
+        for r in regs:
+            count[r] = count.get(r, 0) + 1
+    return out
+
+
+def check_map(case, sub="map"):
+    """noise attached through CircuitDAG.assign_noise(map): every operation of the returned circuit - plain, inside a wrapper,
+    control and target of a two-qubit gate - must behave as carrying the model the map gives for its gate name and register type(s)"""
+    desc, mp = case["circ"], case["map"]
+    base, objs = gc.build(desc, return_ops=True)
+    before = [gc.name_of(o) for o in base.sequence()]
+    lib_map = {}
+    for key in ("e", "p", "ee", "ep", "pe", "pp"):
+        lib_map[key] = {}
+        for g, spec in mp.get(key, {}).items():
+            lib_map[key][CLASSNAME[g]] = [make_noise(x) for x in spec] if len(key) == 2 and isinstance(spec[0], (list, type(None))) else make_noise(spec)
+    noisy = guarded(sub, "assign_noise", base.assign_noise, lib_map)
+    if [gc.name_of(o) for o in base.sequence()] != before or any(spec_of_any(o.noise) for o in base.sequence() if gc.name_of(o) is not None):
+        raise Violation(sub, "input-mutated", "assign_noise", "plain", "assign_noise changed the circuit it was called on")
+    # noise per descriptor operation according to the map
+    noises = []
+    for d in desc["ops"]:
+        if gc.measuring(d):
+            noises.append(None)
+        elif d[0] in gc.ONE:
+            noises.append(mp.get(d[1], {}).get(d[0]))
+        elif d[0] == "W":
+            lst = [mp.get(d[1], {}).get(g) for g in d[3]]
+            noises.append(lst if any(x is not None for x in lst) else None)
+        else:
+            spec = mp.get(d[1] + d[3], {}).get(d[0])
+            if spec is None:
+                noises.append(None)
+            elif isinstance(spec[0], (list, type(None))):
+                noises.append(list(spec))
+            else:
+                noises.append([spec, spec])
+    # match the copy's operations with the descriptor by position on the wires (the copy has new operation objects)
+    pos = {id(o): i for i, o in enumerate(objs)}
+    key_to_i = {k: pos[id(o)] for o, k in wire_keys(base)}
+    objs2 = [None] * len(objs)
+    for o, k in wire_keys(noisy):
+        if k not in key_to_i:
+            raise Violation(sub, "structure", "assign_noise", "plain", "the noisy copy has an operation the original does not have")
+        i = key_to_i[k]
+        d_new = gc.name_of(o)
+        if d_new != desc["ops"][i] and list(d_new) != list(desc["ops"][i]):
+            raise Violation(sub, "structure", "assign_noise", "plain", "operation %s became %s in the noisy copy" % (desc["ops"][i], d_new))
+        objs2[i] = o
+    if any(o is None for o in objs2):
+        raise Violation(sub, "structure", "assign_noise", "plain", "the noisy copy lost an operation")
+    cl, nontrivial, flat = classes(desc, noises)
+    cl.append("via_map")
+    asym = any(d[0] == "W" and nz is not None and [repr(x) for x in nz] != [repr(x) for x in nz][::-1] for d, nz in zip(desc["ops"], noises))
+    if asym:
+        cl.append("wrapper_asymmetric_noise")
+    icls = "map:wrapper_asymmetric" if asym else "map:" + input_class(desc, noises, flat)
+    return check_core(case, desc, noises, noisy, objs2, sub, icls, cl, nontrivial)
+
+
+def spec_of_any(noise):
+    if isinstance(noise, list):
+        return any(spec_of(x) is not None for x in noise)
+    return spec_of(noise) is not None
+
+
+def check_core(case, desc, noises, circ, objs, sub, icls, cl, nontrivial):
+    n = desc["ne"] + desc["np"]
     rho_ref, trace_ref, random_on_mixed = reference(desc, circ, objs=objs, noises=noises)
     if random_on_mixed:
         cl.append("random_measurement_on_mixed_state")
     # (a) density-matrix backend: physical and equal to the reference channel simulation
     sdm = compile_noisy(sub, icls, circ, "dm")
     rho = np.asarray(sdm.rep_data.data)
+    if not np.all(np.isfinite(rho)):
+        raise Violation(sub, "not-finite", "dm", icls, "density matrix has NaN / inf entries")
     if np.linalg.norm(rho - rho.conj().T) > 1e-9:
         raise Violation(sub, "not-hermitian", "dm", icls, "density matrix is not Hermitian")
     w = np.linalg.eigvalsh((rho + rho.conj().T) / 2)
@@ -404,7 +491,46 @@ def st_case(draw, tier="quick"):
     return {"circ": {"ne": ne, "np": np_, "nc": nc, "ops": ops_}, "noises": noises, "targets": targets}
 
 
+@st.composite
+def st_map_case(draw, tier="quick"):
+    maxq = 4 if tier == "quick" else 5
+    nq = draw(st.integers(1, maxq))
+    ne = draw(st.integers(0, nq))
+    np_ = nq - ne
+    prefix = draw(st.lists(gc.st_op(ne, np_, 1), min_size=0, max_size=5)) if draw(st.booleans()) else []
+    body = draw(st.lists(gc.st_op(ne, np_, 1, allow_measure=False), min_size=1, max_size=14))
+    # measuring operations only in the prefix; the map gives noise to gate names, so the prefix must not contain mapped gates:
+    # keep only measuring operations and Hadamards there and leave Hadamard out of the map when a prefix exists
+    prefix = [d for d in prefix if gc.measuring(d) or d[0] == "H"]
+    names = [g for g in gc.ONE if not (prefix and g == "H")]
+    budget = [3]
+
+    def spec():
+        s = draw(st_spec())
+        if s[0] == "depol":
+            if budget[0] == 0:
+                return ["pauli", draw(st.integers(0, 3)), s[2]]
+            budget[0] -= 1
+        return s
+
+    mp = {}
+    for t in "ep":
+        mp[t] = {g: spec() for g in draw(st.lists(st.sampled_from(names), max_size=3, unique=True))}
+    for key in ("ee", "ep", "pe", "pp"):
+        mp[key] = {}
+        for g in draw(st.lists(st.sampled_from(gc.TWO), max_size=2, unique=True)):
+            if draw(st.booleans()):
+                a = spec() if draw(st.booleans()) else None
+                mp[key][g] = [a, spec()] if draw(st.booleans()) else [spec(), a]
+            else:
+                mp[key][g] = spec()
+    targets = draw(st.lists(st.fixed_dictionaries({"word": gs.st_word(nq - 1, 8), "rowops": st.just([])}), min_size=1, max_size=2))
+    return {"circ": {"ne": ne, "np": np_, "nc": 1, "ops": prefix + body}, "map": mp, "targets": targets}
+
+
 SUBS = [
     Sub("noisy", check, strategy=lambda tier: st_case(tier), n={"quick": 100, "thorough": 2000}, timeout={"quick": 120, "thorough": 300}),
+    Sub("map", check_map, strategy=lambda tier: st_map_case(tier), n={"quick": 60, "thorough": 1500}, timeout={"quick": 120, "thorough": 300},
+        doc="noise attached through CircuitDAG.assign_noise(map): the copy behaves as if every operation carried the model the map names for it"),
     Sub("zero", check_zero, strategy=lambda tier: st_case(tier), n={"quick": 30, "thorough": 400}, timeout={"quick": 120, "thorough": 300}),
 ]
